@@ -396,7 +396,11 @@ Section Validator.
             | v => v
             end
       | _ =>
+          (* an RRSIG is used only if its index is within the cap, its signer name is the owner of
+             the RRset or an ancestor of it (RFC 4035 5.3.1; before the fix of finding C07-K3 the
+             signer name was not looked at), and looking its key up would not repeat [oq] *)
           let vs := filter (fun x => (fst x <=? MAX_RRSIGS_PER_RRSET)%nat &&
+                                     zone_of (sig_signer (snd x)) (fst k) &&
                                      negb (query_eqb (sig_signer (snd x), T_DNSKEY) oq))
                            (enumerate 0 sigs) in
           match vs with
@@ -558,13 +562,14 @@ Section Spec.
 
   (* a record is authenticated: it is a trust anchor's key; or a key vouched for by an
      authenticated DS record; or a member of an RRset (as delivered, whole) signed by an
-     authenticated key *)
+     authenticated key whose owner (= the signer name of the signature, see SigOk) is the owner of
+     the RRset or an ancestor of it (RFC 4035 5.3.1: the signer is the zone that contains the RRset) *)
   Inductive Auth : rr -> Prop :=
   | Auth_anchor kr : is_key kr = true -> In (key_pk kr) anchors -> Auth kr
   | Auth_ds kr d : Auth d -> DsVouches d kr -> Auth kr
   | Auth_sig r k sec s kr :
       Delivered sec -> In r (recs_of k sec) -> In s (sigs_of k sec) ->
-      Auth kr -> SigOk k (recs_of k sec) kr s -> Auth r.
+      Auth kr -> SigOk k (recs_of k sec) kr s -> zone_of (owner kr) (fst k) = true -> Auth r.
 End Spec.
 
 (* ------------------------------------------------------------------ *)
